@@ -21,7 +21,8 @@ REQUIRED_COUNTERS = {"summaries": {"quick": 20000, "thorough": 400000},
                      "real_stack_summaries": {"quick": 200, "thorough": 2000},
                      "exiting_frames_omitted": {"quick": 500, "thorough": 10000},
                      "error_sections_rendered_independently": {"quick": 2000, "thorough": 40000},
-                     "frameless_toplevel_stacks_with_leaf": {"quick": 50, "thorough": 1000}}
+                     "frameless_toplevel_stacks_with_leaf": {"quick": 50, "thorough": 1000},
+                     "stacks_summarised_with_sys_tracebacklimit_set": {"quick": 1000, "thorough": 20000}}
 SHARD_TIMEOUT = {"quick": 400, "thorough": 5400}
 INTERPS = ["3.12", "3.11", "3.10", "3.9"]
 
@@ -166,6 +167,22 @@ def worker(spec):
                 res.violation(kind="stdlib summary", label=repr(label), flags=dict(show_contexts=sc, show_hidden_frames=hid,
                               capture_locals=cl), problems=probs[:3], interp=interp)
 
+    plain_check = check
+
+    def check(st, label, scan):  # noqa: F811
+        """every fourth stack is summarised while the process has sys.tracebacklimit set (command-line tools set it to
+        0 or 1 to keep their own error output short): it limits tracebacks of exceptions, not these summaries"""
+        NSET[0] += 1
+        if NSET[0] % 4:
+            return plain_check(st, label, scan)
+        sys.tracebacklimit = (0, 1, 2, -1)[(NSET[0] // 4) % 4]
+        res.count("stacks_summarised_with_sys_tracebacklimit_set")
+        try:
+            return plain_check(st, tuple(label) + ("sys.tracebacklimit=%d" % sys.tracebacklimit,), scan)
+        finally:
+            del sys.tracebacklimit
+
+    NSET = [0]
     for case in range(spec["trees"]):
         if budget.over():
             res.count("budget_cut")
